@@ -107,7 +107,10 @@ def _run_unit(case, ctx):
     widths, endian, unit = case["widths"], case["endian"], case["unit"]
     nbytes = unit // 8
     storage = case["storage"]
-    cs = m.cstruct(endian=endian)
+    # half of the cases load the definition under the OTHER byte order and switch afterwards: the bit order follows
+    # the endianness current at parse time
+    flip = (sum(widths) + len(widths) + (1 if case["compiled"] else 0)) % 2 == 1
+    cs = m.cstruct(endian=("<" if endian == ">" else ">") if flip else endian)
     text = ""
     tname = storage
     if storage == "enum8":
@@ -118,6 +121,9 @@ def _run_unit(case, ctx):
     if isinstance(r, Err):
         raise Violation("definition-rejected", f"{text} endian {endian} compiled={case['compiled']}: {r}", r.where)
     T = cs.Root
+    if flip:
+        cs.endian = endian
+        ctx.count("unit:endian-switched-after-load")
     bo = "little" if endian == "<" else "big"
     values = case.get("values") or range(256)
     assigned = _pack([(1 << w) - 1 for w in widths], unit, widths, endian)
